@@ -100,8 +100,52 @@ def check_copy(ctx, lits, rule="c03.copy", tname="WinGeom", table=None, src_pref
     return len(found)
 
 
+def check_storey_data(ctx, prog, rule="c03.storey"):
+    """FLOOR data merged into its SPACE blocks by the parser: the storey height replaces the space's height unconditionally (walls on an
+    outline edge span the storey height), the storey level is added to z, the storey multiplier is copied"""
+    from ..cfgq import dominating_conditions
+    from ..exprs import ExprBuilder
+    from ..mir import pl_local, pl_proj
+    found = {"height": [], "z": [], "floor_multiplier": []}
+    for f in sorted(prog.fns.values(), key=lambda f: f.id):
+        if f.crate != "hulc" or f.raw.get("impl_derived"):
+            continue
+        body = f.body
+        eb = None
+        for b, i, st in body.statements():
+            if st["s"] != "assign" or isinstance(st["p"], int):
+                continue
+            pr = [e for e in pl_proj(st["p"]) if e != "*"]
+            if len(pr) != 1 or pr[0].lstrip(".") not in found:
+                continue
+            if "envelope::space::Space" not in body.local_ty(pl_local(st["p"])):
+                continue
+            eb = eb or ExprBuilder(body)
+            val = strip(eb.rvalue(st["rv"]))
+            conds = [(strip(n), tk) for (d, n, tk) in dominating_conditions(body, b, eb)]
+            found[pr[0].lstrip(".")].append((f, st.get("ln"), val, conds))
+    for fld, want in (("height", "height"), ("z", "z"), ("floor_multiplier", "multiplier")):
+        key = "%s|%s" % (rule, fld)
+        sites = found[fld]
+        if len(sites) != 1:
+            raise AnalysisError("storey data: expected one assignment of Space.%s from its FLOOR block in the parser, found %d" % (fld, len(sites)))
+        f, ln, val, conds = sites[0]
+        txt = show(val)
+        from_floor = ("floor" in txt.lower()) and txt.endswith("." + want) or (fld == "z" and "floor" in txt.lower() and ".z" in txt)
+        # conditions that look at the space itself (its own height / z): the merge must not depend on them
+        own = [show(n)[:60] for n, tk in conds if ("." + fld) in show(n) and "floor." not in show(n).lower().replace("floor_multiplier", "")]
+        if not from_floor:
+            ctx.violation(rule, key, "Space.%s is set to %s, expected the FLOOR block's %s" % (fld, txt[:60], want), f.loc(ln))
+        elif own:
+            ctx.violation(rule, key, "the storey's %s is merged into the space only when %s: a SPACE block that carries its own value keeps it, so walls placed on an edge "
+                          "of the outline no longer span the storey height (and ceilings are no longer at ceiling level)" % (want, " and ".join(own)), f.loc(ln))
+        else:
+            ctx.ok(rule, key, "Space.%s %s the FLOOR block's %s, unconditionally" % (fld, "accumulates" if fld == "z" else "is", want), f.loc(ln))
+
+
 def run(ctx):
     prog = ctx.prog
+    check_storey_data(ctx, prog)
     lits = literals(prog)
     n = check_copy(ctx, lits)
     ctx.floor("c03.copy", "WinGeom literals", n, 1)
